@@ -158,6 +158,16 @@ def reorderAxes (axes : List Nat) (P : Dens) : Dens :=
 def reorderPops (neworder : List Nat) (P : Dens) : Option Dens :=
   if sortAsc neworder = (List.range P.shape.length).map (· + 1) then some (reorderAxes (neworder.map (· - 1)) P) else none
 
+/-! ### total mass (full d-dimensional trapezoid sum) -/
+
+/-- iterated `Numerics.trapz`: axis 0 on the first grid, then axis 1 on the second, … of the entry function `F` -/
+def massFrom : List (Array Rat) → (Idx → Rat) → Rat
+  | [], F => F []
+  | g :: gs, F => trapzLine g fun k => massFrom gs fun idx => F (k :: idx)
+
+/-- ∫…∫ φ over all populations (population m on `grids[m]`) -/
+def totalMass (grids : List (Array Rat)) (P : Dens) : Rat := massFrom grids P.f
+
 /-! ### tabulation (driver side) -/
 
 def ofND (T : ND) : Dens := { shape := T.shape, f := T.get }
